@@ -93,7 +93,7 @@ def fixed_module(rng, quick=True):
     add("VBs", T("BIT STRING", size=None), [(b"", 0), (b"\x80", 7), (b"\xaa\x40", 6), (bytes(126) + b"\x01", 0), (bytes(127) + b"\x02", 1)])
     add("VStr", T("IA5String", size=None), ["", "abc", "x" * 127, "y" * 128])
     add("VUtf", T("UTF8String", size=None), ["", "hé", "z" * 200])
-    add("VReal", T("REAL"), [0, 0x3ff0000000000000, 0xbff8000000000000, 0x7ff0000000000000])
+    add("VReal", T("REAL"), [0, 0x3ff0000000000000, 0xbff8000000000000, 0x7ff0000000000000, 0x0000000000000003, 0x3ff0200000000000])
     add("VOid", T("OBJECT IDENTIFIER"), [[1, 2], [2, 999, 3]])
     add("VSeqOfB", T("SEQUENCE OF", elem=T("BOOLEAN"), size=None), [[], [True], [True, False, True], [True] * 127, [False, True] * 64, [True] * 300])
     add("VSetOfI", T("SET OF", elem=T("INTEGER", cons=None), size=None), [[], [5], [3, 1, 2], [0, 0], [-1, 300, -1, 7]])
